@@ -29,20 +29,20 @@ INVENTORY = os.path.join(HERE, "panic_inventory.json")
 
 # file -> properties whose theorems rest on its inventory
 FILES = {
-    "src/message.rs": ["C06", "C08", "C05"],
+    "src/message.rs": ["C06", "C08"],
     "src/tag.rs": ["C06", "C08"],
-    "src/request.rs": ["C08", "C07"],
+    "src/request.rs": ["C08"],
     "src/responder.rs": ["C08"],
     "src/server.rs": ["C08"],
     "src/grease.rs": ["C08"],
     "src/merkle.rs": ["C04", "C08"],
     "src/key/online.rs": ["C08"],
-    "src/key/longterm.rs": ["C08", "C10"],
-    "src/sign.rs": ["C08", "C13"],
+    "src/key/longterm.rs": ["C08"],
+    "src/sign.rs": ["C08"],
     "src/version.rs": ["C08"],
     "src/kms/envelope.rs": ["C14"],
-    "src/stats/per_client.rs": ["C08", "C17"],
-    "src/stats/aggregated.rs": ["C08", "C17"],
+    "src/stats/per_client.rs": ["C08"],
+    "src/stats/aggregated.rs": ["C08"],
 }
 
 
